@@ -13,7 +13,7 @@ RULE = ("case = (row lengths, row selector[, column selector]) on an int64 array
         "directed list + systematic sweep of column slices over all shapes with rows of length 0..3 + seeded random index "
         "grammar; distinct = hash of the case; non-trivial = array has >= 2 rows and >= 1 non-empty row and the "
         "index addresses >= 1 cell or must be refused")
-ASSUMPTIONS = ["receiver is a freshly built array (lazy receivers are C06)",
+ASSUMPTIONS = ["receivers: freshly built arrays and four kinds of unmaterialised selections with the same content (program-level laziness is C06)",
                "boolean row masks have exactly n_rows entries (the statement's grammar)"]
 ANCHORS = [
     "raggedarray/indexablearray.py::IndexableArray.__getitem__",
@@ -28,7 +28,7 @@ ANCHORS = [
     "raggedshape.py::RaggedView2._calculate_lengths",
     "raggedshape.py::build_indices",
 ]
-FLOOR_TAGS = ["r:int", "r:slice+1", "r:slice+k", "r:slice-", "r:list", "r:array", "r:mask", "r:ell",
+FLOOR_TAGS = ["recv:fresh", "recv:lazyrows", "recv:lazycols+2", "recv:lazycols-1", "recv:lazychain", "r:int", "r:slice+1", "r:slice+k", "r:slice-", "r:list", "r:array", "r:mask", "r:ell",
               "c:none", "c:int+", "c:int-", "c:slice+1", "c:slice+k", "c:slice-",
               "must-refuse", "sel-has-empty-row", "e-first", "e-last", "e-mid", "e-consec", "allempty", "norows"]
 FLOOR_MONITORS = ["c02:model-compare", "c02:refusal", "inv:ragged"]
@@ -39,8 +39,48 @@ def setup(lib):
     contracts.attach(lib, which=("ragged",))
 
 
-def mk_case(lens, rs, cs=None, has_cs=False):
-    return {"lens": list(lens), "rs": rs, "cs": cs, "has_cs": bool(has_cs)}
+RECVS = ["fresh", "lazyrows", "lazycols+2", "lazycols-1", "lazychain"]
+
+
+def mk_case(lens, rs, cs=None, has_cs=False, recv="fresh"):
+    return {"lens": list(lens), "rs": rs, "cs": cs, "has_cs": bool(has_cs), "recv": recv}
+
+
+def build_receiver(recv, flat, lens):
+    """-> (array whose content is the rows flat/lens, parent or None).  The non-fresh receivers are
+    unmaterialised selections of a larger parent in which the wanted cells are interleaved with junk."""
+    RA = CTX.lib.RaggedArray
+    if recv == "fresh" or recv is None:
+        return RA(flat.copy(), list(lens)), None
+    rows = gen.split_rows(flat, lens)
+    junk = lambda k: (np.arange(k) * 0 - 7).astype(flat.dtype)
+    if recv == "lazyrows":
+        prow = [junk(2)]
+        for r in rows:
+            prow += [r, junk(1)]
+        parent = RA(np.concatenate(prow), [len(r) for r in prow])
+        return parent[1::2], parent
+    if recv == "lazycols+2":
+        prow = []
+        for r in rows:
+            q = np.full(2 * len(r), -7, dtype=flat.dtype)
+            q[::2] = r
+            prow.append(q)
+        parent = RA(np.concatenate(prow) if prow else flat[:0], [len(r) for r in prow])
+        return parent[:, ::2], parent
+    if recv == "lazycols-1":
+        prow = [r[::-1] for r in rows]
+        parent = RA(np.concatenate(prow) if prow else flat[:0], [len(r) for r in prow])
+        return parent[:, ::-1], parent
+    if recv == "lazychain":
+        prow = [junk(1)]
+        for r in rows[::-1]:
+            q = np.full(2 * len(r) + 1, -7, dtype=flat.dtype)
+            q[1::2] = r[::-1]
+            prow += [q, junk(3)]
+        parent = RA(np.concatenate(prow), [len(r) for r in prow])
+        return parent[1::2][::-1, 1::2][:, ::-1], parent   # view of view of view, column step -2
+    raise ValueError(recv)
 
 
 def decode(v):
@@ -62,11 +102,12 @@ def observe(x):
     return "??" + type(x).__name__, x
 
 
-def run(case, build=None):
+def run(case):
     lens, rs, cs, has_cs = case["lens"], case["rs"], case["cs"], case["has_cs"]
+    recv = case.get("recv", "fresh")
     pyrows = gen.id_rows(lens)
     flat = np.array([v for r in pyrows for v in r], dtype=np.int64)
-    tags = [model.describe_selector(rs), model.describe_cols(cs, has_cs)] + gen.empty_placement(lens)
+    tags = [model.describe_selector(rs), model.describe_cols(cs, has_cs), "recv:" + recv] + gen.empty_placement(lens)
     # the model's answer
     try:
         kind, cells = model.select_cells(lens, rs, cs, has_cs)
@@ -80,10 +121,8 @@ def run(case, build=None):
         tags.append("must-refuse")
     nontrivial = len(lens) >= 2 and sum(lens) > 0 and (refused or ncell > 0)
 
-    if build is None:
-        ra = CTX.lib.RaggedArray(flat.copy(), list(lens))
-    else:
-        ra = build(flat.copy(), list(lens))
+    ra, parent = build_receiver(recv, flat, lens)
+    parent_before = peek(parent) if parent is not None else None
     idx = model.make_index(rs, cs, has_cs)
     out = attempt(lambda: ra[idx])
     if out.ok:
@@ -116,12 +155,21 @@ def run(case, build=None):
     # the receiver must be unchanged by a read
     if peek(ra) != pyrows:
         return violated("reading ra[%s] changed the array" % short(idx), tags + ["read-mutates"])
+    if parent is not None and peek(parent) != parent_before:
+        return violated("reading ra[%s] changed the array it was derived from" % short(idx), tags + ["read-mutates"])
     return held(tags, nontrivial)
 
 
 # ----------------------------------------------------------------------------- workloads
 
 def directed():
+    for c in _directed():
+        yield c
+        for recv in RECVS[1:]:
+            yield dict(c, recv=recv)
+
+
+def _directed():
     L = [3, 1, 0, 2, 4]
     yield mk_case(L, 1)
     yield mk_case(L, -1)
@@ -203,6 +251,7 @@ def sweep(tier):
         bounds = [None, -5, -3, -2, -1, 0, 1, 2, 3, 5]
     else:
         shapes = list(_shapes(3))
+    k = 0
     for lens in shapes:
         n = len(lens)
         rsels = [slice(None), slice(None, None, -1)] + [[i] for i in range(n)]
@@ -211,7 +260,8 @@ def sweep(tier):
                 for st in steps:
                     cs = slice(a, b, st)
                     for rs in rsels:
-                        yield mk_case(lens, rs, cs, True)
+                        k += 1
+                        yield mk_case(lens, rs, cs, True, RECVS[k % len(RECVS)] if k % 3 == 0 else "fresh")
 
 
 def random_selector(rng, n, allow_oob=True):
@@ -249,12 +299,13 @@ def random_case(rng, tier):
     if isinstance(rs, np.ndarray) and rs.ndim == 0 and ck != "none":
         rs = int(rs)  # a 0-d array next to a column selector is outside the statement's grammar (DESIGN 7.4)
     maxl = max(lens) if lens else 0
+    recv = rng.choice(RECVS) if rng.random() < 0.5 else "fresh"
     if ck == "none":
-        return mk_case(lens, rs)
+        return mk_case(lens, rs, recv=recv)
     if ck == "int":
         c = rng.randint(-maxl - 1, maxl)
-        return mk_case(lens, rs, rng.choice([c, c, np.int64(c)]), True)
-    return mk_case(lens, rs, gen.gen_slice(rng, maxl), True)
+        return mk_case(lens, rs, rng.choice([c, c, np.int64(c)]), True, recv)
+    return mk_case(lens, rs, gen.gen_slice(rng, maxl), True, recv)
 
 
 def classify(case, res):
